@@ -156,10 +156,29 @@ def gen_malformed(r, keys, maxlen=60):
 
 
 # ------------------------------------------------------------------ flat schema cases
-KINDS = ["R", "I", "B", "S", "V", "N1", "N2", "N3", "K"]
+KINDS = ["R", "I", "B", "S", "V", "N1", "N2", "N3", "K", "T3", "T4", "T2", "T5", "R!", "S!", "B!", "T3!"]
 
 
 def value_for(r, kind, good=True):
+    kind = kind.rstrip("!")
+    if kind[0] == "T":
+        n = int(kind[1:])
+        toks = [r.choice(NUMBER_TOKENS) for _ in range(n)]
+        sp = lambda: r.choice(["", " ", "  ", "\t"])
+        if good:
+            return "(" + sp() + (sp() + "," + sp()).join(toks) + sp() + ")"
+        m = r.random()
+        if m < 0.2:
+            return "(" + ", ".join(toks)                       # no closing parenthesis
+        if m < 0.4:
+            return "(" + ", ".join(toks[:-1] or ["1"]) + ")" if n > 1 else "()"   # too few
+        if m < 0.55:
+            return "(" + ", ".join(toks + ["1"]) + ")"         # too many
+        if m < 0.7:
+            return "(" + ", ".join(toks) + ") x"               # text after
+        if m < 0.85:
+            return "(" + ", ".join([r.choice(BAD_NUMBER_TOKENS)] + toks[1:]) + ")"
+        return " ".join(toks)                                  # no parentheses
     if kind == "R":
         return r.choice(NUMBER_TOKENS if good else BAD_NUMBER_TOKENS + ["1 2", "1 abc", "0.5 .", "2 1e"])
     if kind == "I":
